@@ -64,18 +64,19 @@ type Ctx struct {
 	Index int
 	R     *rand.Rand // per-case PRNG
 
-	mu       sync.Mutex
-	evals    int64
-	counters map[string]int64
-	fps      map[uint64]struct{}
-	nontriv  map[uint64]struct{}
-	findings []Finding
-	perSig   map[string]int
-	samples  []any
-	pending  *os.File
-	flog     *os.File
-	Verbose  bool
-	Replay   bool
+	mu              sync.Mutex
+	evals           int64
+	counters        map[string]int64
+	fps             map[uint64]struct{}
+	nontriv         map[uint64]struct{}
+	findings        []Finding
+	perSig          map[string]int
+	samples         []any
+	perLayerSamples map[string]int
+	pending         *os.File
+	flog            *os.File
+	Verbose         bool
+	Replay          bool
 }
 
 func NewCtx(prop, tier string, seed int64, build string, shard, nshards int, pendingPath string) *Ctx {
@@ -183,8 +184,12 @@ func (c *Ctx) Fail(sig, what string, detail map[string]any) {
 // Sample keeps a few of the actual cases for the evidence file.
 func (c *Ctx) Sample(x any) {
 	c.mu.Lock()
-	if len(c.samples) < maxSamples {
-		c.samples = append(c.samples, x)
+	if c.perLayerSamples == nil {
+		c.perLayerSamples = map[string]int{}
+	}
+	if c.perLayerSamples[c.Layer] < 2 && len(c.samples) < 10 {
+		c.perLayerSamples[c.Layer]++
+		c.samples = append(c.samples, map[string]any{"layer": c.Layer, "index": c.Index, "case": x})
 	}
 	c.mu.Unlock()
 }
@@ -192,7 +197,7 @@ func (c *Ctx) Sample(x any) {
 func (c *Ctx) WantSample() bool {
 	c.mu.Lock()
 	defer c.mu.Unlock()
-	return len(c.samples) < maxSamples
+	return c.perLayerSamples[c.Layer] < 2 && len(c.samples) < 10
 }
 
 type Result = trace.Result
